@@ -111,6 +111,13 @@ LabelCode(rows) ==
        ELSE IF "cntvar" \in DOMAIN cfg /\ \E j \in 1..n : "nb" \notin DOMAIN rows[j] \/
                ~SameNum(rows[j].nb, NumV(Scale * Cardinality({m \in 1..j : rows[m].cls.v = cfg.cntvar /\ Col(evs[IdOf(rows[m])], "v").k = "num"})), 0)
             THEN "running_count_of_a_variable_wrong"
+       \* FIRST(<var>.v) AS fb / LAST(<var>.v) AS lb (running): the value of the first / last row so far that is classified as <var>, NULL when none is
+       ELSE IF "navvar" \in DOMAIN cfg /\ \E j \in 1..n :
+               LET Bs == {m \in 1..j : rows[m].cls.v = cfg.navvar}
+                   fst == IF Bs = {} THEN Null ELSE Col(evs[IdOf(rows[CHOOSE m \in Bs : \A x \in Bs : m <= x])], "v")
+                   lst == IF Bs = {} THEN Null ELSE Col(evs[IdOf(rows[CHOOSE m \in Bs : \A x \in Bs : m >= x])], "v") IN
+               ~Same(Col(rows[j], "fb"), fst) \/ ~Same(Col(rows[j], "lb"), lst)
+            THEN "first_or_last_of_a_variable_wrong"
        ELSE ""
 \* one delivery may hold several matches one after the other (the flush at Stop): a match = a maximal run of rows with one
 \* partition key and one MATCH_NUMBER
